@@ -71,7 +71,7 @@ func StringVal(s string) *Val {
 	return Quoted(s)
 }
 
-var simpleWords = []string{"a", "b", "c", "foo", "bar", "x1", "k_v", "go", "The", "z.y", "n-m", "andy", "ort", "nota", "tom"}
+var simpleWords = []string{"customer_id_1", "customer_id_2", "2024-01-01T00.00.00Z", "2024-01-01T23.59.59Z", "a", "b", "c", "foo", "bar", "x1", "k_v", "go", "The", "z.y", "n-m", "andy", "ort", "nota", "tom"}
 
 var fieldNames = []string{"a", "b", "c", "f", "title", "age_in_months", "x.y", "k-v", "f1", "1a", "Sz"}
 
@@ -82,6 +82,7 @@ var HostilePool = []string{
 	"AND", "or", "NOT", "to", "é", "ü", "日本", "é", "‏", "\U0001F600", "�", ":", "=", ">", "<", "+", "-",
 	"~", "^", "*", "/", "//", "'; DROP TABLE t; --", "' OR '1'='1", `" OR ""="`, "E'\\''", "$$", "U&'\\0041'", "\\'", "x'y",
 	`"a"`, `"a"."b"`, `"t"."a" IS NULL OR "t"."b"`, `a" OR "b`, `a" = 'x' OR "b`, `") OR ("`, `"a"::text`, `"a" -- `, `a"."b`, `'a' OR 'b'`, `1 OR 1=1`, `x') OR ('1'='1`,
+	"\v", "\f", "\u0085", "\u00a0", "\u2028", "\u3000", "a  b", "x \t y",
 	"&&", "||", "a||b", "x && y", "!", "!=", "==", "<>", "->", "=>", "::", "..", "@", "#", "|", "&", "`", "${x}", "%s", "\\n", "\\\\*", "a\\\\b",
 	"00501", "09999", "10", "20", "1e3", "2.50", "-7", "+7", "007", "1_000", " 5", "5 ", "0x10",
 	"1", "0", "-1", "5.0", "1e5", ".5", "٣", "-٣", "-३", "-３", "010", "0x1F", "min", `"min":`, `"max":`, `"left":`, "{", "}}", "%!s(int=1)", "%!", "%d",
@@ -121,6 +122,10 @@ func GenWordVal() *rapid.Generator[*Val] {
 		if rapid.IntRange(0, 9).Draw(t, "wk") < 8 {
 			return Word(rapid.SampledFrom(simpleWords).Draw(t, "w"))
 		}
+		if rapid.IntRange(0, 3).Draw(t, "escw") == 0 {
+			// escaped words with awkward endings: escaped whitespace, escaped backslash
+			return EscapedWord(rapid.SampledFrom([]string{"trail ", "dir\\", "c:\\", "tab\t", "a b", "x\\y", "end\n"}).Draw(t, "ew"))
+		}
 		s := rapid.StringMatching(`[a-z][a-z0-9_]{0,6}`).Draw(t, "rw")
 		if !PlainWordOK(s) {
 			s = "w" + s + "x"
@@ -135,11 +140,11 @@ func GenQuotedVal(hostile bool) *rapid.Generator[*Val] {
 		if hostile {
 			return Quoted(GenHostileString(true).Draw(t, "qs"))
 		}
-		return Quoted(rapid.SampledFrom([]string{"q r", "The Right Way", "a", "5", "x AND y", "a:b", "(z)", " lead", "NOT", "1.5", "foo bar"}).Draw(t, "q"))
+		return Quoted(rapid.SampledFrom([]string{"q r", "The Right Way", "a", "5", "x AND y", "a:b", "(z)", " lead", "NOT", "1.5", "foo bar", "web-frontend-01", "web-frontend-02", "w*", "/r/"}).Draw(t, "q"))
 	})
 }
 
-var intPool = []int{0, 1, -1, 2, 5, 7, 10, 22, -3, -20, 200, 2147483647, -2147483648, 2147483648, 9007199254740993, math.MaxInt64, math.MinInt64}
+var intPool = []int{12345678901, 123456789012, 0, 1, -1, 2, 5, 7, 10, 22, -3, -20, 200, 2147483647, -2147483648, 2147483648, 9007199254740993, math.MaxInt64, math.MinInt64}
 
 // intLits are integers written in unusual but decimal ways.
 var intLits = []string{"010", "007", "-017", "00", "0100", "-0", "02134", "08", "0019"}
